@@ -294,14 +294,14 @@ def _alarm(signum, frame):
 def run_real(builder, case):
     """returns (tokens, response)"""
     import signal
-    signal.signal(signal.SIGALRM, _alarm)
-    signal.setitimer(signal.ITIMER_REAL, CASE_TIMEOUT)
+    signal.signal(signal.SIGPROF, _alarm)
+    signal.setitimer(signal.ITIMER_PROF, CASE_TIMEOUT)
     try:
         return run_real_(builder, case)
     except CaseTimeout:
         return list(CAPTURE[:2000]), "err Timeout:?:0"
     finally:
-        signal.setitimer(signal.ITIMER_REAL, 0)
+        signal.setitimer(signal.ITIMER_PROF, 0)
 
 
 CASE_TIMEOUT = 4.0
